@@ -331,8 +331,7 @@ func boundNameFields(fn *ssa.Function) map[*types.Var]bool {
 					continue
 				}
 				// map loaded from field Variables of an EvalContext
-				lf := loadedField(mu.Map)
-				if lf == nil || lf.Name() != "Variables" {
+				if !isVariablesMap(mu.Map) {
 					continue
 				}
 				for fv := range fieldTrail(mu.Key) {
@@ -966,7 +965,7 @@ func c07Dynblock(c *Ctx) {
 	for _, b := range ev.Blocks {
 		for _, ins := range b.Instrs {
 			if mu, ok := ins.(*ssa.MapUpdate); ok {
-				if lf := loadedField(mu.Map); lf != nil && lf.Name() == "Variables" {
+				if isVariablesMap(mu.Map) {
 					for fv := range fieldTrail(mu.Key) {
 						bound[fv.Name()] = true
 					}
@@ -1421,6 +1420,28 @@ func underNilTest(b *ssa.BasicBlock, v ssa.Value) bool {
 		}
 		if idom.Succs[nilEdge] == d {
 			return true
+		}
+	}
+	return false
+}
+
+// isVariablesMap: m is the Variables map of an EvalContext: loaded from that field, or a map made
+// here that is stored into that field.
+func isVariablesMap(m ssa.Value) bool {
+	if lf := loadedField(m); lf != nil && lf.Name() == "Variables" {
+		return true
+	}
+	mm, ok := m.(*ssa.MakeMap)
+	if !ok {
+		return false
+	}
+	for _, r := range *mm.Referrers() {
+		if st, ok := r.(*ssa.Store); ok && st.Val == ssa.Value(mm) {
+			if fa, ok := st.Addr.(*ssa.FieldAddr); ok {
+				if fv := fieldVarOf(fa.X.Type(), fa.Field); fv != nil && fv.Name() == "Variables" {
+					return true
+				}
+			}
 		}
 	}
 	return false
